@@ -650,7 +650,7 @@ func TestSharding(t *testing.T) {
 		outs := map[string]int{}
 		for s := 0; s < 4; s++ {
 			o2 := o
-			o2.Shard, o2.Shards, o2.KeepHB = s, 4, 1 << 20
+			o2.Shard, o2.Shards, o2.KeepHB = s, 4, 1<<20
 			r := Explore("shard", o2, mk)
 			must(t, r)
 			if !r.Complete {
